@@ -193,3 +193,21 @@ Theorem C19_fcgi_path_gate_no_panic_partial :
     fcgi_path_gate fpath file_exists suffix_ok = Panic <-> (file_exists = true /\ fpath = []).
 Proof. exact fcgi_path_gate_panic_iff. Qed.
 Print Assumptions C19_fcgi_path_gate_no_panic_partial.
+
+(* ---- placeholders: Replace's scanning loops and getSubstitution's indexing are total for
+   EVERY template and EVERY substitution values (request headers, cookies, query, host labels) ---- *)
+Theorem C19_replace_no_panic :
+  forall (subst : N -> bytes -> bytes) (template : bytes), replace subst template <> Panic.
+Proof. exact replace_no_panic. Qed.
+Print Assumptions C19_replace_no_panic.
+
+(* getSubstitution's index expressions (key[1], key[2:len-1], key[6:len-1]) are in range on every
+   key that ends in an unescaped closing brace — the only keys Replace produces *)
+Theorem C19_subst_key_no_panic :
+  forall (t : bytes) (x : N), x <> BSL -> subst_key (t ++ [x; RB]) <> Panic.
+Proof. exact subst_key_no_panic. Qed.
+Print Assumptions C19_subst_key_no_panic.
+
+Example C19_subst_key_no_panic_nonvacuous :
+  subst_key [123; 62; 125] = Ok (1, []) /\ subst_key (lit_label_13 ++ [125]) = Ok (6, []).
+Proof. split; reflexivity. Qed.
